@@ -458,7 +458,7 @@ func recordBoundToUser(c *km.Ctx, s *km.Sem, at ssa.Instruction, rec ssa.Value, 
 		return true
 	}
 	return st.All(func(k km.Conj) bool {
-		for f := range k {
+		for _, f := range k.List() {
 			if f.Op != token.EQL {
 				continue
 			}
